@@ -149,6 +149,13 @@ def run(ctx):  # noqa: C901
     # ---- symmetric extension hierarchy -----------------------------------------------------------------
     sh = m.func("symmetric_extension_hierarchy.symmetric_extension_hierarchy")
     r_effect_free(ctx, sh, ["states", "probs", "dim"])
+    from ..rules import r_parallel_families
+    r_parallel_families(ctx, sh, ["states", "probs"])
+    for fn_ in ("ppt_distinguishability.ppt_distinguishability", "ppt_distinguishability._min_error_primal", "ppt_distinguishability._min_error_dual"):
+        try:
+            r_parallel_families(ctx, m.func(fn_), ["vectors", "probs"])
+        except KeyError:
+            pass
     og = origins(sh)
     Ns = Normalizer(m, sh, inline=False)
     sk = Skeleton(m, sh)
